@@ -45,6 +45,11 @@ def run_traj(subj, sp, plan, seed, lock=None, obs_out=None):
             rec.append(("reset", env.current_state.tensor.tobytes()))
             continue
         _, i, vec = op
+        if len(rec) % 4 == 1:
+            # what an exploring agent does between its steps: ask the action
+            # space for a sample (the space has its own generator; the draw
+            # deciding the next step must not move)
+            env.action_space.sample()
         if flat:
             arg = int(i)
         elif i % 3 == 0:
